@@ -67,6 +67,7 @@ func guardedBy(s ssa.Instruction, pred func(facts []Fact) bool, depth int) bool 
 func checkC11(p *Prog, r *Report) {
 	r.Explanation = "(1) E5: in test.test every Cache.Store and every move of the results file into plz-out (the on-disk result cache) is guarded — inside its closure or at every call site of the closure — by a sufficient success test (AllSucceeded()==true, or Failures()==0 && Errors()==0) and by `len(state.TestArgs) == 0`; (2) the closure that returns cached results returns non-nil only on the AllSucceeded()==true edge with a nil parse error, and its result is used only under needToRun()==false; (3) the reuse decision returns false only on the verifyHash(results file, hash)==true edge or as the negation of retrieveFromCache(hash), and returns true when ForceRerun is set; (4) the hash used by verifyHash/retrieve/store/move derives from runtimeHash; build.RuntimeHash is RuleHash(runtime=true) for pre and post build, the config hash, and a hash.Hash fed with PathHasher.Hash (content mode) of every file from IterRuntimeFiles, and file hashes reach the result only through that hash.Hash (no order-insensitive folding); (5) E2 with the runtime table on ruleHash (adds data, test outputs, test sandbox, test command, args placeholder); (6) IterRuntimeFiles yields paths derived from Outputs(), runtime dependencies, AllData() and AllTestTools()."
 	r.NotCovered = []string{"outcome equality with a fresh run", "remote execution result reuse", "flaky-retry accounting (C26)"}
+	p.hardlinkMarkerRule(r, "fs/E9.hardlink-marker-protocol")
 	test := p.Fn("test", "test")
 	if test == nil {
 		r.unresolved("E5.store-under-success", "test.test")
